@@ -940,7 +940,733 @@ theorem bulkDoc_closed (app : Str) (ts : List Table) (es : List Entry) (routes :
       obtain ⟨e, he, a, hgen⟩ := hroutes r hmem
       obtain ⟨k, hk⟩ := genRoutes_payload a e r hgen
       exact ⟨k, e.name, List.mem_map_of_mem (f := (·.name)) he, hk⟩
-    · exact ⟨fun kv hkv => nomatch hkv, fun kv hkv => nomatch hkv, bulkSchemas_norefs ts hschema, hasKey_bulkSchemas_server ts⟩
+    · exact ⟨fun kv hkv => (nomatch hkv), fun kv hkv => (nomatch hkv), bulkSchemas_norefs ts hschema, hasKey_bulkSchemas_server ts⟩
   · cases h
+
+/-! ### request bodies referenced by operations -/
+
+theorem rbRefs_postItem (n : Str) : rbRefsItem (.obj [(c!"post", postOp n)]) = [bodyRef n] := rfl
+
+theorem rbRefs_itemFor (e : Entry) : rbRefsItem (.obj (itemFor e)) = [] := by
+  rw [itemFor_eq]
+  cases e.crud.contains 'R' <;> cases e.crud.contains 'D' <;> rfl
+
+def RInv (d : Doc) : Prop :=
+  ∀ kv ∈ d.paths, ∀ r ∈ rbRefsItem kv.2, ∃ n, r = bodyPrefix ++ n ∧ hasKey d.requestBodies n = true
+
+theorem step_rinv (d : Doc) (e : Entry) (h : RInv d) : RInv (step d e) := by
+  have hold : ∀ kv ∈ d.paths, ∀ r ∈ rbRefsItem kv.2, ∃ n, r = bodyPrefix ++ n ∧ hasKey (step d e).requestBodies n = true := by
+    intro kv hkv r hr
+    obtain ⟨n, rfl, hk⟩ := h kv hkv r hr
+    refine ⟨n, rfl, ?_⟩
+    simp only [OpenApi.step]; split
+    · exact hasKey_setKey _ _ _ _ hk
+    · exact hk
+  have h1 : ∀ kv ∈ (if e.crud.contains 'C' then setKey d.paths e.route (.obj [(c!"post", postOp e.name)]) else d.paths),
+      ∀ r ∈ rbRefsItem kv.2, ∃ n, r = bodyPrefix ++ n ∧ hasKey (step d e).requestBodies n = true := by
+    split
+    · rename_i hc
+      intro kv hkv r hr
+      rcases mem_setKey _ _ _ _ hkv with hk | rfl
+      · exact hold kv hk r hr
+      · rw [rbRefs_postItem] at hr
+        simp only [List.mem_singleton] at hr
+        subst hr
+        refine ⟨bodyName e.name, rfl, ?_⟩
+        simp only [OpenApi.step, hc, if_true]; exact hasKey_setKey_self _ _ _
+    · exact hold
+  intro kv hkv r hr
+  simp only [OpenApi.step] at hkv
+  split at hkv
+  · rcases mem_setKey _ _ _ _ hkv with hk | rfl
+    · exact h1 kv hk r hr
+    · rw [rbRefs_itemFor] at hr; cases hr
+  · exact h1 kv hkv r hr
+
+theorem openapiDoc_rinv (es : List Entry) : RInv (openapiDoc es) := by
+  unfold openapiDoc
+  suffices ∀ d, RInv d → RInv (es.foldl step d) from this init (by intro kv hkv; simp [init] at hkv)
+  induction es with
+  | nil => intro d hd; exact hd
+  | cons e es ih => intro d hd; exact ih _ (step_rinv d e hd)
+
+theorem requestBodyRefs_toJ (d : Doc) : requestBodyRefs d.toJ = d.paths.flatMap (fun kv => rbRefsItem kv.2) := by
+  unfold requestBodyRefs; rw [pathsOf_toJ]
+
+/-! ### `str.split("/")`, `"/".join`, `str.find` on route and summary strings -/
+
+theorem splitOn1_append_sep (sep : Char) (s t acc : Str) :
+    splitOn1 sep (s ++ sep :: t) acc = splitOn1 sep s acc ++ splitOn1 sep t [] := by
+  induction s generalizing acc with
+  | nil => simp [splitOn1]
+  | cons c cs ih =>
+    by_cases hc : (c == sep) = true
+    · simp [splitOn1, hc, ih]
+    · simp [splitOn1, hc, ih]
+
+theorem splitOn1_ne_nil (sep : Char) (s acc : Str) : splitOn1 sep s acc ≠ [] := by
+  induction s generalizing acc with
+  | nil => simp [splitOn1]
+  | cons c cs ih =>
+    by_cases hc : (c == sep) = true
+    · simp [splitOn1, hc]
+    · simp only [splitOn1, hc, Bool.false_eq_true, ↓reduceIte]; exact ih _
+
+theorem join_cons_cons (sep x y : Str) (ys : List Str) : join sep (x :: y :: ys) = x ++ sep ++ join sep (y :: ys) := by
+  rw [join]; simp
+
+theorem join_cons_ne (sep x : Str) (xs : List Str) (h : xs ≠ []) : join sep (x :: xs) = x ++ sep ++ join sep xs := by
+  cases xs with
+  | nil => exact absurd rfl h
+  | cons y ys => exact join_cons_cons sep x y ys
+
+theorem join_splitOn1 (sep : Char) (s acc : Str) : join [sep] (splitOn1 sep s acc) = acc.reverse ++ s := by
+  induction s generalizing acc with
+  | nil => simp [splitOn1, join]
+  | cons c cs ih =>
+    by_cases hc : (c == sep) = true
+    · have : c = sep := by simpa using hc
+      subst this
+      simp only [splitOn1, beq_self_eq_true, ↓reduceIte]
+      rw [join_cons_ne _ _ _ (splitOn1_ne_nil _ _ _), ih]; simp
+    · simp only [splitOn1, hc, Bool.false_eq_true, ↓reduceIte]
+      rw [ih]; simp
+
+theorem join_append_singleton (sep x : Str) (A : List Str) (h : A ≠ []) : join sep (A ++ [x]) = join sep A ++ sep ++ x := by
+  induction A with
+  | nil => exact absurd rfl h
+  | cons a as ih =>
+    cases as with
+    | nil => simp [join]
+    | cons b bs =>
+      rw [List.cons_append, join_cons_ne _ _ _ (by simp), ih (by simp), join_cons_cons]
+      simp [List.append_assoc]
+
+theorem mem_splitOn1_chars (sep : Char) (s acc : Str) : ∀ seg ∈ splitOn1 sep s acc, ∀ c ∈ seg, c ∈ acc ∨ c ∈ s := by
+  induction s generalizing acc with
+  | nil => intro seg hseg c hc; simp [splitOn1] at hseg; subst hseg; exact Or.inl (by simpa using hc)
+  | cons x xs ih =>
+    intro seg hseg c hc
+    by_cases hx : (x == sep) = true
+    · simp only [splitOn1, hx, ↓reduceIte, List.mem_cons] at hseg
+      rcases hseg with rfl | hseg
+      · exact Or.inl (by simpa using hc)
+      · rcases ih [] seg hseg c hc with h | h
+        · cases h
+        · exact Or.inr (List.mem_cons_of_mem _ h)
+    · simp only [splitOn1, hx, Bool.false_eq_true, ↓reduceIte] at hseg
+      rcases ih _ seg hseg c hc with h | h
+      · rcases List.mem_cons.mp h with rfl | h
+        · exact Or.inr List.mem_cons_self
+        · exact Or.inl h
+      · exact Or.inr (List.mem_cons_of_mem _ h)
+
+theorem startsWith_colon_false (seg : Str) (h : ':' ∉ seg) : startsWith seg c!":" = false := by
+  cases seg with
+  | nil => rfl
+  | cons c cs =>
+    have : (':' == c) = false := by
+      rw [beq_eq_false_iff_ne]; intro e; exact h (e ▸ List.mem_cons_self)
+    simp [startsWith, List.isPrefixOf, this]
+
+theorem segs_no_colon (route : Str) (h : ':' ∉ route) : ∀ seg ∈ split1 route '/', startsWith seg c!":" = false := by
+  intro seg hseg
+  apply startsWith_colon_false
+  intro hc
+  rcases mem_splitOn1_chars '/' route [] seg hseg ':' hc with h' | h'
+  · cases h'
+  · exact h h'
+
+theorem split1_bottleItem (route id : Str) (hi : '/' ∉ id) :
+    split1 (bottleItem route id) '/' = split1 route '/' ++ [':' :: id] := by
+  have e : bottleItem route id = route ++ '/' :: (':' :: id) := by simp [bottleItem]
+  have hi' : '/' ∉ (':' :: id) := by
+    intro h; rcases List.mem_cons.mp h with h | h
+    · cases h
+    · exact hi h
+  unfold split1
+  rw [e, splitOn1_append_sep, splitOn1_noSep '/' _ [] hi']; simp
+
+theorem map_id_of_forall {α} (f : α → α) (l : List α) (h : ∀ x ∈ l, f x = x) : l.map f = l := by
+  induction l with
+  | nil => rfl
+  | cons a as ih => simp [h a List.mem_cons_self, ih (fun x hx => h x (List.mem_cons_of_mem _ hx))]
+
+theorem convertRoute_bottleItem (route id : Str) (hr : ':' ∉ route) (hi : '/' ∉ id) :
+    convertRoute (bottleItem route id) = itemRoute route id := by
+  unfold convertRoute
+  rw [split1_bottleItem route id hi, List.map_append,
+    map_id_of_forall _ (split1 route '/') (fun seg hseg => by simp [segs_no_colon route hr seg hseg])]
+  simp only [List.map_cons, List.map_nil]
+  rw [join_append_singleton _ _ _ (by unfold split1; exact splitOn1_ne_nil _ _ _)]
+  have : join c!"/" (split1 route '/') = route := by
+    have := join_splitOn1 '/' route []
+    simpa [split1] using this
+  rw [this]
+  simp [startsWith, List.isPrefixOf, itemRoute]
+
+theorem filter_nil_of_forall {α} (p : α → Bool) (l : List α) (h : ∀ x ∈ l, p x = false) : l.filter p = [] := by
+  induction l with
+  | nil => rfl
+  | cons a as ih => simp [h a List.mem_cons_self, ih (fun x hx => h x (List.mem_cons_of_mem _ hx))]
+
+theorem routeParams_bottleItem (route id o : Str) (hr : ':' ∉ route) (hi : '/' ∉ id) :
+    routeParams (bottleItem route id) o = [bulkParam id o] := by
+  unfold routeParams
+  rw [split1_bottleItem route id hi, List.filter_append, filter_nil_of_forall _ _ (segs_no_colon route hr)]
+  simp [startsWith, List.isPrefixOf]
+
+theorem contains_single (c : Char) (s : Str) : Py.contains s [c] = decide (c ∈ s) := by
+  induction s with
+  | nil => simp [Py.contains]
+  | cons x xs ih =>
+    simp only [Py.contains, List.isPrefixOf, ih, List.mem_cons]
+    by_cases hx : c = x
+    · simp [hx]
+    · have : (c == x) = false := by rw [beq_eq_false_iff_ne]; exact hx
+      simp [this, hx]
+
+theorem contains_colon_route (route : Str) (h : ':' ∉ route) : Py.contains route c!":" = false := by
+  rw [contains_single]; simpa using h
+
+theorem contains_colon_bottleItem (route id : Str) : Py.contains (bottleItem route id) c!":" = true := by
+  rw [contains_single]; simp [bottleItem]
+
+theorem findFrom_skip (c : Char) (name t : Str) (i : Nat) (h : c ∉ name) :
+    findFrom [c] (name ++ c :: t) i = some (i + name.length) := by
+  induction name generalizing i with
+  | nil => simp [findFrom, List.isPrefixOf]
+  | cons x xs ih =>
+    have hx : (c == x) = false := by
+      rw [beq_eq_false_iff_ne]; intro e; exact h (e ▸ List.mem_cons_self)
+    simp only [List.cons_append, findFrom, List.isPrefixOf, hx, Bool.false_and, Bool.false_eq_true, ↓reduceIte]
+    rw [ih _ (fun m => h (List.mem_cons_of_mem _ m))]
+    simp; omega
+
+theorem clampIdx_nat (n k : Nat) (h : k ≤ n) : clampIdx n (k : Int) = k := by
+  unfold clampIdx
+  simp only [show ¬ ((k : Int) < 0) by omega, ↓reduceIte]
+  split
+  · omega
+  · simp
+
+/-- the text between the first two backticks of `pre ++ "`" ++ name ++ "`" ++ post` is `name` -/
+theorem backtick_name (pre name post : Str) (hpre : '`' ∉ pre) (hname : '`' ∉ name) :
+    let s := pre ++ '`' :: (name ++ '`' :: post)
+    slice s (some (findI s c!"`" + 1)) (some (findAtI s c!"`" (findI s c!"`" + 1).toNat)) = name := by
+  intro s
+  have h1 : findI s c!"`" = (pre.length : Int) := by
+    simp only [findI, find, s, findFrom_skip '`' pre _ 0 hpre]; simp
+  have h2 : ((pre.length : Int) + 1).toNat = pre.length + 1 := by omega
+  have hlen : s.length = pre.length + 1 + (name.length + 1 + post.length) := by simp [s]; omega
+  have h3 : findAtI s c!"`" (pre.length + 1) = ((pre.length + 1 + name.length : Nat) : Int) := by
+    have hd : s.drop (pre.length + 1) = name ++ '`' :: post := by
+      simp only [s]
+      rw [show pre ++ '`' :: (name ++ '`' :: post) = (pre ++ ['`']) ++ (name ++ '`' :: post) by simp]
+      rw [List.drop_left' (by simp)]
+    simp only [findAtI, findAt, show ¬ (pre.length + 1 > s.length) by omega, ↓reduceIte, hd,
+      findFrom_skip '`' name post _ hname]
+  rw [h1, h2, h3]
+  unfold slice
+  simp only
+  rw [show ((pre.length : Int) + 1) = ((pre.length + 1 : Nat) : Int) by omega,
+    clampIdx_nat _ _ (by omega), clampIdx_nat _ _ (by omega)]
+  simp only [s]
+  rw [show pre ++ '`' :: (name ++ '`' :: post) = (pre ++ ['`']) ++ (name ++ '`' :: post) by simp]
+  rw [List.drop_left' (by simp)]
+  rw [show pre.length + 1 + name.length - (pre.length + 1) = name.length by omega]
+  simp
+
+theorem backtick_name' (s pre name post : Str) (hs : s = pre ++ '`' :: (name ++ '`' :: post)) (hpre : '`' ∉ pre) (hname : '`' ∉ name) :
+    slice s (some (findI s c!"`" + 1)) (some (findAtI s c!"`" (findI s c!"`" + 1).toNat)) = name := by
+  subst hs; exact backtick_name pre name post hpre hname
+
+/-! ### `openapi_bulk` on the routes `gen_routes` writes: the document, explicitly -/
+
+theorem objectName_get (n : Str) (rest : Dict) (hn : '`' ∉ n) (hne : n ≠ []) :
+    objectName ((c!"get", templatePayload .read n) :: rest) = .ok n := by
+  have hs : aObject n = c!"A " ++ '`' :: (n ++ '`' :: c!" object.") := by simp [aObject]
+  simp only [objectName, lookup, templatePayload, beq_self_eq_true, ↓reduceIte,
+    show (c!"responses" == c!"summary") = false by decide, Bool.false_eq_true]
+  rw [backtick_name' _ _ n _ hs (by decide) hn]
+  cases n with
+  | nil => exact absurd rfl hne
+  | cons c cs => rfl
+
+theorem objectName_delete (n : Str) (hn : '`' ∉ n) (hne : n ≠ []) :
+    objectName [(c!"delete", templatePayload .destroy n), (c!"parameters", .arr [])] = .ok n := by
+  have hs : c!"Delete one `" ++ n ++ c!"`" = c!"Delete one " ++ '`' :: (n ++ '`' :: []) := by simp
+  simp only [objectName, lookup, templatePayload, beq_self_eq_true, ↓reduceIte,
+    show (c!"delete" == c!"get") = false by decide, show (c!"parameters" == c!"get") = false by decide,
+    show (c!"responses" == c!"summary") = false by decide, Bool.false_eq_true]
+  rw [backtick_name' _ _ n _ hs (by decide) hn]
+  cases n with
+  | nil => exact absurd rfl hne
+  | cons c cs => rfl
+
+def postFn (app : Str) (e : Entry) : RouteFn :=
+  { app := app, path := e.route, method := c!"post", payload := templatePayload .create e.name }
+def getFn (app : Str) (e : Entry) : RouteFn :=
+  { app := app, path := bottleItem e.route e.id, method := c!"get", payload := templatePayload .read e.name }
+def delFn (app : Str) (e : Entry) : RouteFn :=
+  { app := app, path := bottleItem e.route e.id, method := c!"delete", payload := templatePayload .destroy e.name }
+
+theorem genRoutes_eq (app : Str) (e : Entry) : genRoutes app e =
+    (if e.crud.contains 'C' then [postFn app e] else []) ++ (if e.crud.contains 'R' then [getFn app e] else []) ++
+      (if e.crud.contains 'D' then [delFn app e] else []) := rfl
+
+/-- the hypotheses on one (name, route, id, crud) under which the bulk document is computed explicitly -/
+structure GoodEntry (e : Entry) : Prop where
+  name_slash : '/' ∉ e.name
+  name_tick : '`' ∉ e.name
+  name_ne : e.name ≠ []
+  route_colon : ':' ∉ e.route
+  id_slash : '/' ∉ e.id
+
+/-- the path item `openapi_bulk` builds at `route/{id}` -/
+def bulkItem (e : Entry) : Dict :=
+  (if e.crud.contains 'R' then [(c!"get", templatePayload .read e.name)] else []) ++
+  (if e.crud.contains 'D' then [(c!"delete", templatePayload .destroy e.name)] else []) ++
+  [(c!"parameters", .arr [bulkParam e.id e.name])]
+
+/-- the `groupby` groups of the routes of one entry -/
+def entryGroups (app : Str) (e : Entry) : List (Str × List RouteFn) :=
+  (if e.crud.contains 'C' then [(e.route, [postFn app e])] else []) ++
+  (if e.crud.contains 'R' || e.crud.contains 'D' then
+    [(bottleItem e.route e.id, (if e.crud.contains 'R' then [getFn app e] else []) ++ (if e.crud.contains 'D' then [delFn app e] else []))]
+   else [])
+
+/-- effect of one entry's groups on (request_bodies, paths) -/
+def afterEntry (st : Dict × Dict) (e : Entry) : Dict × Dict :=
+  let st1 : Dict × Dict := if e.crud.contains 'C' then
+      (update st.1 [(bodyName e.name, bulkBody e.name)], setKey st.2 e.route (.obj [(c!"post", templatePayload .create e.name)]))
+    else st
+  if e.crud.contains 'R' || e.crud.contains 'D' then (st1.1, setKey st1.2 (itemRoute e.route e.id) (.obj (bulkItem e))) else st1
+
+theorem construct_post (e : Entry) (h : GoodEntry e) :
+    construct e.route [(c!"post", templatePayload .create e.name)] =
+      .ok (e.route, [(c!"post", templatePayload .create e.name)], [(bodyName e.name, bulkBody e.name)]) := by
+  simp only [construct, withParams, contains_colon_route e.route h.route_colon, Bool.false_eq_true, ↓reduceIte, bodiesOf,
+    bodyOf_create e.name h.name_slash]
+
+theorem construct_item (app : Str) (e : Entry) (h : GoodEntry e) (hRD : (e.crud.contains 'R' || e.crud.contains 'D') = true) :
+    ∃ pd, updateD ((if e.crud.contains 'R' then [getFn app e] else []) ++ (if e.crud.contains 'D' then [delFn app e] else [])) = .ok pd ∧
+      construct (bottleItem e.route e.id) pd = .ok (itemRoute e.route e.id, bulkItem e, []) := by
+  have hc := contains_colon_bottleItem e.route e.id
+  have hcv := convertRoute_bottleItem e.route e.id h.route_colon h.id_slash
+  have hrp := routeParams_bottleItem e.route e.id e.name h.route_colon h.id_slash
+  unfold bulkItem
+  cases hR : e.crud.contains 'R' <;> cases hD : e.crud.contains 'D' <;> simp only [hR, hD] at hRD
+  · cases hRD
+  · refine ⟨[(c!"delete", templatePayload .destroy e.name)], rfl, ?_⟩
+    have hpd0 : setKey [(c!"delete", templatePayload .destroy e.name)] c!"parameters" (.arr []) =
+        [(c!"delete", templatePayload .destroy e.name), (c!"parameters", .arr [])] := rfl
+    simp only [construct, withParams, hc, ↓reduceIte, hpd0, objectName_delete e.name h.name_tick h.name_ne, hcv, hrp]
+    rfl
+  · refine ⟨[(c!"get", templatePayload .read e.name)], rfl, ?_⟩
+    have hpd0 : setKey [(c!"get", templatePayload .read e.name)] c!"parameters" (.arr []) =
+        [(c!"get", templatePayload .read e.name), (c!"parameters", .arr [])] := rfl
+    simp only [construct, withParams, hc, ↓reduceIte, hpd0, objectName_get e.name _ h.name_tick h.name_ne, hcv, hrp]
+    rfl
+  · refine ⟨[(c!"get", templatePayload .read e.name), (c!"delete", templatePayload .destroy e.name)], rfl, ?_⟩
+    have hpd0 : setKey [(c!"get", templatePayload .read e.name), (c!"delete", templatePayload .destroy e.name)] c!"parameters" (.arr []) =
+        [(c!"get", templatePayload .read e.name), (c!"delete", templatePayload .destroy e.name), (c!"parameters", .arr [])] := rfl
+    simp only [construct, withParams, hc, ↓reduceIte, hpd0, objectName_get e.name _ h.name_tick h.name_ne, hcv, hrp]
+    rfl
+
+theorem bulkGroups_entry (app : Str) (e : Entry) (G : List (Str × List RouteFn)) (rb paths : Dict) (h : GoodEntry e) :
+    bulkGroups (entryGroups app e ++ G) rb paths = bulkGroups G (afterEntry (rb, paths) e).1 (afterEntry (rb, paths) e).2 := by
+  have hup : updateD [postFn app e] = .ok [(c!"post", templatePayload .create e.name)] := rfl
+  unfold entryGroups afterEntry
+  cases hC : e.crud.contains 'C' <;> cases hRD : (e.crud.contains 'R' || e.crud.contains 'D')
+  · simp
+  · obtain ⟨pd, hu, hc⟩ := construct_item app e h hRD
+    simp only [Bool.false_eq_true, ↓reduceIte, List.nil_append, List.cons_append, bulkGroups, hu, hc]
+    rfl
+  · simp only [↓reduceIte, Bool.false_eq_true, List.append_nil, List.cons_append, List.nil_append, bulkGroups, hup, construct_post e h]
+  · obtain ⟨pd, hu, hc⟩ := construct_item app e h hRD
+    simp only [↓reduceIte, List.cons_append, List.nil_append, bulkGroups, hup, construct_post e h, hu, hc]
+    rfl
+
+/-! `groupby` on generated routes -/
+
+def headPath (rs : List RouteFn) : Option Str := rs.head?.map (·.path)
+
+theorem groupBy_head (rs : List RouteFn) : (groupBy rs).head?.map (·.1) = headPath rs := by
+  cases rs with
+  | nil => rfl
+  | cons r rs =>
+    simp only [groupBy, headPath, List.head?_cons, Option.map_some]
+    split
+    · split
+      · rename_i hk; simp only [List.head?_cons, Option.map_some]; congr 1; simpa using hk
+      · rfl
+    · rfl
+
+theorem groupBy_cons_ne (r : RouteFn) (rs : List RouteFn) (h : headPath rs ≠ some r.path) :
+    groupBy (r :: rs) = (r.path, [r]) :: groupBy rs := by
+  have hh := groupBy_head rs
+  simp only [groupBy]
+  split
+  · rename_i k g rest heq
+    rw [heq] at hh
+    simp only [List.head?_cons, Option.map_some] at hh
+    have hk : (k == r.path) = false := by
+      rw [beq_eq_false_iff_ne]; intro e; exact h (by rw [← hh, e])
+    simp only [hk, Bool.false_eq_true, ↓reduceIte]
+    rw [heq]
+  · rename_i heq; rw [heq]
+
+theorem groupBy_cons_eq (r r' : RouteFn) (rs : List RouteFn) (hp : r'.path = r.path) (h : headPath rs ≠ some r.path) :
+    groupBy (r :: r' :: rs) = (r.path, [r, r']) :: groupBy rs := by
+  rw [groupBy, groupBy_cons_ne r' rs (by rw [hp]; exact h)]
+  simp [hp]
+
+theorem headPath_append_of_ne (a b : List RouteFn) (h : a ≠ []) : headPath (a ++ b) = headPath a := by
+  cases a with
+  | nil => exact absurd rfl h
+  | cons x xs => rfl
+
+theorem groupBy_entry (app : Str) (e : Entry) (rest : List RouteFn)
+    (h1 : headPath rest ≠ some e.route) (h2 : headPath rest ≠ some (bottleItem e.route e.id))
+    (h3 : e.route ≠ bottleItem e.route e.id) :
+    groupBy (genRoutes app e ++ rest) = entryGroups app e ++ groupBy rest := by
+  rw [genRoutes_eq]; unfold entryGroups
+  have hpg : (getFn app e).path = bottleItem e.route e.id := rfl
+  have hpd : (delFn app e).path = bottleItem e.route e.id := rfl
+  have hpp : (postFn app e).path = e.route := rfl
+  cases e.crud.contains 'C' <;> cases e.crud.contains 'R' <;> cases e.crud.contains 'D' <;>
+    simp only [Bool.false_eq_true, ↓reduceIte, List.nil_append, List.append_nil, List.cons_append, Bool.or_false, Bool.or_true,
+      Bool.or_self]
+  · rw [groupBy_cons_ne _ _ (by rw [hpd]; exact h2), hpd]
+  · rw [groupBy_cons_ne _ _ (by rw [hpg]; exact h2), hpg]
+  · rw [groupBy_cons_eq _ _ _ (by rw [hpd, hpg]) (by rw [hpg]; exact h2), hpg]
+  · rw [groupBy_cons_ne _ _ (by rw [hpp]; exact h1), hpp]
+  · rw [groupBy_cons_ne (postFn app e) _ (by
+      rw [hpp]; simp only [headPath, List.head?_cons, Option.map_some, hpd]; intro hc; exact h3 (Option.some.inj hc).symm),
+      groupBy_cons_ne (delFn app e) _ (by rw [hpd]; exact h2), hpp, hpd]
+  · rw [groupBy_cons_ne (postFn app e) _ (by
+      rw [hpp]; simp only [headPath, List.head?_cons, Option.map_some, hpg]; intro hc; exact h3 (Option.some.inj hc).symm),
+      groupBy_cons_ne (getFn app e) _ (by rw [hpg]; exact h2), hpp, hpg]
+  · rw [groupBy_cons_ne (postFn app e) _ (by
+      rw [hpp]; simp only [headPath, List.head?_cons, Option.map_some, hpg]; intro hc; exact h3 (Option.some.inj hc).symm),
+      groupBy_cons_eq (getFn app e) (delFn app e) rest (by rw [hpd, hpg]) (by rw [hpg]; exact h2), hpp, hpg]
+
+/-- the decorator paths an entry's routes use -/
+def bottleKeys (e : Entry) : List Str := [e.route, bottleItem e.route e.id]
+
+theorem headPath_genRoutes (app : Str) (e : Entry) (p : Str) (h : headPath (genRoutes app e) = some p) : p ∈ bottleKeys e := by
+  rw [genRoutes_eq] at h
+  revert h
+  cases e.crud.contains 'C' <;> cases e.crud.contains 'R' <;> cases e.crud.contains 'D' <;>
+    simp only [headPath, postFn, getFn, delFn, bottleKeys, Bool.false_eq_true, ↓reduceIte, List.nil_append, List.append_nil,
+      List.cons_append, List.head?_cons, List.head?_nil, Option.map_some, Option.map_none, Option.some.injEq, List.mem_cons,
+      List.mem_nil_iff, or_false] <;> intro h <;> first | exact Or.inl h.symm | exact Or.inr h.symm | cases h
+
+theorem headPath_flatMap (app : Str) (es : List Entry) (p : Str) (h : headPath (es.flatMap (genRoutes app)) = some p) :
+    p ∈ es.flatMap bottleKeys := by
+  induction es with
+  | nil => simp [headPath] at h
+  | cons e es ih =>
+    simp only [List.flatMap_cons] at h ⊢
+    by_cases hne : genRoutes app e = []
+    · rw [hne, List.nil_append] at h
+      exact List.mem_append_right _ (ih h)
+    · rw [headPath_append_of_ne _ _ hne] at h
+      exact List.mem_append_left _ (headPath_genRoutes app e p h)
+
+theorem groupBy_flatMap (app : Str) (es : List Entry) (hnd : (es.flatMap bottleKeys).Nodup) :
+    groupBy (es.flatMap (genRoutes app)) = es.flatMap (entryGroups app) := by
+  induction es with
+  | nil => rfl
+  | cons e es ih =>
+    simp only [List.flatMap_cons] at hnd ⊢
+    rw [List.nodup_append] at hnd
+    obtain ⟨he, hes, hdis⟩ := hnd
+    have h3 : e.route ≠ bottleItem e.route e.id := by
+      simp only [bottleKeys, List.nodup_cons, List.mem_singleton] at he; exact he.1
+    rw [groupBy_entry app e _ ?_ ?_ h3, ih hes]
+    · intro hc
+      exact hdis e.route (by simp [bottleKeys]) _ (headPath_flatMap app es _ hc) rfl
+    · intro hc
+      exact hdis (bottleItem e.route e.id) (by simp [bottleKeys]) _ (headPath_flatMap app es _ hc) rfl
+
+theorem bulkGroups_entries (app : Str) (es : List Entry) (rb paths : Dict) (h : ∀ e ∈ es, GoodEntry e) :
+    bulkGroups (es.flatMap (entryGroups app)) rb paths = .ok (es.foldl afterEntry (rb, paths)) := by
+  induction es generalizing rb paths with
+  | nil => rfl
+  | cons e es ih =>
+    rw [List.flatMap_cons, bulkGroups_entry app e _ rb paths (h e List.mem_cons_self), ih _ _ (fun x hx => h x (List.mem_cons_of_mem _ hx))]
+    rfl
+
+theorem ofApp_genRoutes (app : Str) (es : List Entry) : ofApp app (es.flatMap (genRoutes app)) = es.flatMap (genRoutes app) := by
+  unfold ofApp
+  apply List.filter_eq_self.mpr
+  intro r hr
+  simp only [List.mem_flatMap] at hr
+  obtain ⟨e, _, hr⟩ := hr
+  rw [genRoutes_eq] at hr
+  simp only [List.mem_append] at hr
+  rcases hr with (hr | hr) | hr <;> split at hr <;> simp at hr <;> subst hr <;> simp [postFn, getFn, delFn]
+
+/-- the entries `openapi_bulk` writes into `paths` for one model -/
+def bulkPathItems (e : Entry) : Dict :=
+  (if e.crud.contains 'C' then [(e.route, .obj [(c!"post", templatePayload .create e.name)])] else []) ++
+  (if e.crud.contains 'R' || e.crud.contains 'D' then [(itemRoute e.route e.id, .obj (bulkItem e))] else [])
+
+theorem afterEntry_paths (st : Dict × Dict) (e : Entry) (h1 : e.route ∉ keys st.2) (h2 : itemRoute e.route e.id ∉ keys st.2)
+    (h3 : e.route ≠ itemRoute e.route e.id) : (afterEntry st e).2 = st.2 ++ bulkPathItems e := by
+  unfold afterEntry bulkPathItems
+  cases e.crud.contains 'C' <;> cases (e.crud.contains 'R' || e.crud.contains 'D') <;>
+    simp only [Bool.false_eq_true, ↓reduceIte, List.append_nil, List.nil_append]
+  · rw [setKey_fresh _ _ _ h2]
+  · rw [setKey_fresh _ _ _ h1]
+  · rw [setKey_fresh _ _ _ h1, setKey_fresh, List.append_assoc, List.singleton_append]
+    simp only [keys, List.map_append, List.map_cons, List.map_nil, List.mem_append, List.mem_singleton, not_or]
+    exact ⟨h2, fun h => h3 h.symm⟩
+
+theorem keys_bulkPathItems_sublist (e : Entry) : (keys (bulkPathItems e)).Sublist (pathKeys e) := by
+  unfold bulkPathItems pathKeys keys
+  cases e.crud.contains 'C' <;> cases (e.crud.contains 'R' || e.crud.contains 'D') <;> simp
+
+theorem foldl_afterEntry_paths (es : List Entry) (st : Dict × Dict) (hnd : (keys st.2 ++ es.flatMap pathKeys).Nodup) :
+    (es.foldl afterEntry st).2 = st.2 ++ es.flatMap bulkPathItems := by
+  induction es generalizing st with
+  | nil => simp
+  | cons e es ih =>
+    simp only [List.flatMap_cons, pathKeys] at hnd
+    have hnd' := hnd
+    rw [List.nodup_append] at hnd
+    obtain ⟨_, hr, hdis⟩ := hnd
+    have h1 : e.route ∉ keys st.2 := fun hm => hdis _ hm _ (by simp) rfl
+    have h2 : itemRoute e.route e.id ∉ keys st.2 := fun hm => hdis _ hm _ (by simp) rfl
+    have h3 : e.route ≠ itemRoute e.route e.id := by
+      intro heq
+      simp only [List.cons_append, List.nil_append, List.nodup_cons, List.mem_cons] at hr
+      exact hr.1 (Or.inl heq)
+    have hp := afterEntry_paths st e h1 h2 h3
+    rw [List.foldl_cons, ih (afterEntry st e) ?_, hp, List.flatMap_cons, List.append_assoc]
+    rw [hp]
+    refine List.Nodup.sublist ?_ hnd'
+    simp only [keys, List.map_append, List.append_assoc]
+    apply List.Sublist.append (List.Sublist.refl _)
+    exact List.Sublist.append (keys_bulkPathItems_sublist e) (List.Sublist.refl _)
+
+theorem methodsOf_bulkItem (e : Entry) : methodsOf (.obj (bulkItem e)) =
+    (if e.crud.contains 'R' then [c!"get"] else []) ++ (if e.crud.contains 'D' then [c!"delete"] else []) := by
+  unfold bulkItem
+  cases e.crud.contains 'R' <;> cases e.crud.contains 'D' <;> rfl
+
+theorem opsOfPaths_bulkPathItems (e : Entry) : opsOfPaths (bulkPathItems e) = requested e := by
+  unfold bulkPathItems requested
+  rw [opsOfPaths_append, List.append_assoc]
+  congr 1
+  · split
+    · simp [opsOfPaths, methodsOf, keys, httpMethods]
+    · simp [opsOfPaths]
+  · have hm := methodsOf_bulkItem e
+    revert hm
+    cases e.crud.contains 'R' <;> cases e.crud.contains 'D' <;> intro hm <;>
+      simp [opsOfPaths, hm]
+
+theorem opsOfPaths_flatMap (es : List Entry) : opsOfPaths (es.flatMap bulkPathItems) = es.flatMap requested := by
+  induction es with
+  | nil => rfl
+  | cons e es ih => rw [List.flatMap_cons, List.flatMap_cons, opsOfPaths_append, opsOfPaths_bulkPathItems, ih]
+
+/-- **the bulk document of generated routes, explicitly** -/
+theorem bulkDoc_generated (app : Str) (ts : List Table) (es : List Entry) (hgood : ∀ e ∈ es, GoodEntry e)
+    (hb : (es.flatMap bottleKeys).Nodup) (hp : (es.flatMap pathKeys).Nodup) :
+    ∃ rb, bulkDoc app ts (es.flatMap (genRoutes app)) =
+      .ok { requestBodies := rb, schemas := bulkSchemas ts, paths := es.flatMap bulkPathItems } := by
+  unfold bulkDoc
+  rw [ofApp_genRoutes, groupBy_flatMap app es hb, bulkGroups_entries app es [] [] hgood]
+  refine ⟨(es.foldl afterEntry ([], [])).1, ?_⟩
+  have := foldl_afterEntry_paths es ([], []) (by simpa [keys] using hp)
+  simp only [List.nil_append] at this
+  simp only [this]
+
+/-! ### routes → `openapi_bulk` reads back what `emit.openapi` writes -/
+
+theorem eqv_post (n : Str) : (templatePayload .create n).eqv (postOp n) = true := by
+  simp [templatePayload, postOp, J.eqv, eqvKvs, lookup, response, jsonContent, refObj, refKey]
+
+theorem eqv_postItem (n : Str) : (J.obj [(c!"post", templatePayload .create n)]).eqv (.obj [(c!"post", postOp n)]) = true := by
+  simp [J.eqv, eqvKvs, lookup, eqv_post]
+
+theorem eqv_item (e : Entry) : (J.obj (bulkItem e)).eqv (.obj (itemFor e)) = true := by
+  rw [itemFor_eq]; unfold bulkItem
+  cases e.crud.contains 'R' <;> cases e.crud.contains 'D' <;>
+  simp [templatePayload, getOp, deleteOp, bulkParam, paramObj, J.eqv, eqvKvs, eqvList, lookup, response, jsonContent, refObj, refKey]
+
+theorem eqv_body (n : Str) : (bulkBody n).eqv (bodyObj n) = true := by
+  simp [bulkBody, bodyObj, J.eqv, eqvKvs, lookup, jsonContent, refObj, refKey]
+
+theorem dictEqv_append (a b c d : Dict) (h1 : dictEqv a b = true) (h2 : dictEqv c d = true) : dictEqv (a ++ c) (b ++ d) = true := by
+  induction a generalizing b with
+  | nil => cases b with
+    | nil => exact h2
+    | cons y ys => simp [dictEqv] at h1
+  | cons x xs ih =>
+    cases b with
+    | nil => obtain ⟨k, v⟩ := x; simp [dictEqv] at h1
+    | cons y ys =>
+      obtain ⟨k, v⟩ := x; obtain ⟨k', v'⟩ := y
+      simp only [dictEqv, Bool.and_eq_true] at h1
+      simp only [List.cons_append, dictEqv, Bool.and_eq_true]
+      exact ⟨h1.1, ih ys h1.2⟩
+
+theorem dictEqv_any (a b : Dict) (k : Str) (h : dictEqv a b = true) : a.any (·.1 == k) = b.any (·.1 == k) := by
+  induction a generalizing b with
+  | nil => cases b with
+    | nil => rfl
+    | cons y ys => simp [dictEqv] at h
+  | cons x xs ih =>
+    cases b with
+    | nil => obtain ⟨k, v⟩ := x; simp [dictEqv] at h
+    | cons y ys =>
+      obtain ⟨k1, v⟩ := x; obtain ⟨k2, v'⟩ := y
+      simp only [dictEqv, Bool.and_eq_true, beq_iff_eq] at h
+      obtain ⟨⟨rfl, _⟩, h3⟩ := h
+      simp only [List.any_cons, ih ys h3]
+
+theorem dictEqv_map_replace (a b : Dict) (k : Str) (v w : J) (h : dictEqv a b = true) (hv : v.eqv w = true) :
+    dictEqv (a.map (fun kv => if kv.1 == k then (k, v) else kv)) (b.map (fun kv => if kv.1 == k then (k, w) else kv)) = true := by
+  induction a generalizing b with
+  | nil => cases b with
+    | nil => rfl
+    | cons y ys => simp [dictEqv] at h
+  | cons x xs ih =>
+    cases b with
+    | nil => obtain ⟨k, v⟩ := x; simp [dictEqv] at h
+    | cons y ys =>
+      obtain ⟨k1, v1⟩ := x; obtain ⟨k2, v2⟩ := y
+      simp only [dictEqv, Bool.and_eq_true, beq_iff_eq] at h
+      obtain ⟨⟨rfl, hvv⟩, h3⟩ := h
+      simp only [List.map_cons]
+      by_cases hk : (k1 == k) = true
+      · simp only [hk, ↓reduceIte, dictEqv, beq_self_eq_true, hv, Bool.true_and]; exact ih ys h3
+      · simp only [hk, Bool.false_eq_true, ↓reduceIte, dictEqv, beq_self_eq_true, hvv, Bool.true_and]; exact ih ys h3
+
+theorem dictEqv_setKey (a b : Dict) (k : Str) (v w : J) (h : dictEqv a b = true) (hv : v.eqv w = true) :
+    dictEqv (setKey a k v) (setKey b k w) = true := by
+  unfold setKey
+  rw [← dictEqv_any a b k h]
+  split
+  · exact dictEqv_map_replace a b k v w h hv
+  · exact dictEqv_append a b _ _ h (by simp [dictEqv, hv])
+
+/-- what `emit.openapi` writes into `paths` for one entry (fresh keys, `crud` ⊆ "CRUD") -/
+def emitPathItems (e : Entry) : Dict :=
+  (if e.crud.contains 'C' then [(e.route, .obj [(c!"post", postOp e.name)])] else []) ++
+  [(itemRoute e.route e.id, .obj (itemFor e))]
+
+theorem paths_foldl (es : List Entry) (d : Doc) (hnd : (keys d.paths ++ es.flatMap pathKeys).Nodup)
+    (hok : ∀ e ∈ es, crudOK e.crud = true) : (es.foldl step d).paths = d.paths ++ es.flatMap emitPathItems := by
+  induction es generalizing d with
+  | nil => simp
+  | cons e es ih =>
+    simp only [List.flatMap_cons, pathKeys] at hnd
+    have hnd' := hnd
+    rw [List.nodup_append] at hnd
+    obtain ⟨_, hr, hdis⟩ := hnd
+    have h1 : e.route ∉ keys d.paths := fun hm => hdis _ hm _ (by simp) rfl
+    have h2 : itemRoute e.route e.id ∉ keys d.paths := fun hm => hdis _ hm _ (by simp) rfl
+    have h3 : e.route ≠ itemRoute e.route e.id := by
+      intro heq
+      simp only [List.cons_append, List.nil_append, List.nodup_cons, List.mem_cons] at hr
+      exact hr.1 (Or.inl heq)
+    have hoke := hok e List.mem_cons_self
+    rw [List.foldl_cons, ih (step d e) ?_ (fun x hx => hok x (List.mem_cons_of_mem _ hx)), step_paths_fresh d e h1 h2 h3 hoke]
+    · simp [emitPathItems, List.append_assoc]
+    · refine List.Nodup.sublist ?_ hnd'
+      have := keys_step_sublist d e h1 h2 h3 hoke
+      have := List.Sublist.append this (List.Sublist.refl (es.flatMap pathKeys))
+      simpa [pathKeys, List.append_assoc] using this
+
+theorem withOps_emitPathItems (e : Entry) : withOps (emitPathItems e) =
+    (if e.crud.contains 'C' then [(e.route, .obj [(c!"post", postOp e.name)])] else []) ++
+    (if e.crud.contains 'R' || e.crud.contains 'D' then [(itemRoute e.route e.id, .obj (itemFor e))] else []) := by
+  unfold withOps emitPathItems
+  rw [List.filter_append]
+  congr 1
+  · split
+    · simp [methodsOf, keys, httpMethods]
+    · rfl
+  · have hm := methodsOf_itemFor e
+    revert hm
+    cases e.crud.contains 'R' <;> cases e.crud.contains 'D' <;> intro hm <;> simp [hm]
+
+theorem withOps_flatMap (es : List Entry) : withOps (es.flatMap emitPathItems) = es.flatMap (fun e => withOps (emitPathItems e)) := by
+  unfold withOps
+  induction es with
+  | nil => rfl
+  | cons e es ih => simp only [List.flatMap_cons, List.filter_append, ih]
+
+theorem dictEqv_pathItems (e : Entry) : dictEqv (bulkPathItems e) (withOps (emitPathItems e)) = true := by
+  rw [withOps_emitPathItems]; unfold bulkPathItems
+  apply dictEqv_append
+  · split
+    · simp [dictEqv, eqv_postItem]
+    · rfl
+  · split
+    · simp [dictEqv, eqv_item]
+    · rfl
+
+theorem dictEqv_flatMap (es : List Entry) : dictEqv (es.flatMap bulkPathItems) (withOps (es.flatMap emitPathItems)) = true := by
+  rw [withOps_flatMap]
+  induction es with
+  | nil => rfl
+  | cons e es ih =>
+    simp only [List.flatMap_cons]
+    exact dictEqv_append _ _ _ _ (dictEqv_pathItems e) ih
+
+theorem afterEntry_bodies (st : Dict × Dict) (e : Entry) :
+    (afterEntry st e).1 = if e.crud.contains 'C' then setKey st.1 (bodyName e.name) (bulkBody e.name) else st.1 := by
+  unfold afterEntry
+  cases e.crud.contains 'C' <;> cases (e.crud.contains 'R' || e.crud.contains 'D') <;> rfl
+
+theorem bodies_foldl (es : List Entry) (st : Dict × Dict) (d : Doc) (h : dictEqv st.1 d.requestBodies = true) :
+    dictEqv (es.foldl afterEntry st).1 (es.foldl step d).requestBodies = true := by
+  induction es generalizing st d with
+  | nil => exact h
+  | cons e es ih =>
+    rw [List.foldl_cons, List.foldl_cons]
+    apply ih
+    rw [afterEntry_bodies]
+    simp only [OpenApi.step]
+    split
+    · exact dictEqv_setKey _ _ _ _ _ h (eqv_body e.name)
+    · exact h
+
+theorem bodiesOfDoc_toJ (d : Doc) : bodiesOfDoc d.toJ = d.requestBodies := by
+  simp [bodiesOfDoc, Doc.toJ, getPath_obj_cons, getPath_nil, lookup]
+
+/-- the bulk document of generated routes, explicitly, together with its request bodies -/
+theorem bulkDoc_generated' (app : Str) (ts : List Table) (es : List Entry) (hgood : ∀ e ∈ es, GoodEntry e)
+    (hb : (es.flatMap bottleKeys).Nodup) (hp : (es.flatMap pathKeys).Nodup) :
+    bulkDoc app ts (es.flatMap (genRoutes app)) =
+      .ok { requestBodies := (es.foldl afterEntry ([], [])).1, schemas := bulkSchemas ts, paths := es.flatMap bulkPathItems } := by
+  unfold bulkDoc
+  rw [ofApp_genRoutes, groupBy_flatMap app es hb, bulkGroups_entries app es [] [] hgood]
+  have := foldl_afterEntry_paths es ([], []) (by simpa [keys] using hp)
+  simp only [List.nil_append] at this
+  simp only [this]
+
+theorem declared_bulkItem (e : Entry) : declared (.obj (bulkItem e)) = [e.id] := by
+  unfold bulkItem
+  cases e.crud.contains 'R' <;> cases e.crud.contains 'D' <;> rfl
+
+theorem pinv_bulkPathItems (es : List Entry) (h : ∀ e ∈ es, '{' ∉ e.route ∧ '}' ∉ e.id) : PInv (es.flatMap bulkPathItems) := by
+  intro kv hkv x hx
+  simp only [List.mem_flatMap] at hkv
+  obtain ⟨e, he, hkv⟩ := hkv
+  obtain ⟨hr, hi⟩ := h e he
+  unfold bulkPathItems at hkv
+  simp only [List.mem_append] at hkv
+  rcases hkv with hkv | hkv <;> split at hkv <;> simp at hkv <;> subst hkv
+  · rw [tparams_route _ hr] at hx; cases hx
+  · rw [tparams_itemRoute _ _ hr hi] at hx
+    rw [declared_bulkItem]; exact hx
 
 end OpenApi
